@@ -212,6 +212,29 @@ fn section<P: PolyT>(rep: &mut Report, cases: u64) {
     });
 }
 
+/// cancellation-directed: single-stage polynomials whose constant term is minus the rounded sum of
+/// the other terms, so that the exact result is the tiny residual — every bit the accumulation loses shows
+fn cancel_section<P: PolyT>(rep: &mut Report, cases: u64) {
+    rep.generated(&format!("{} cancellation-directed poly1..4 (constant term = -round(rest))", P::NAME), cases, || (gen::real_bits(P::N), proptest::collection::vec(gen::real_bits(P::N), 8), 0usize..4, -2i64..=2), |(x, cs, which, d), l| {
+        let k = ncoef(*which);
+        let mut coefs: Vec<Vec<u64>> = (0..k).map(|i| vec![cs[i]]).collect();
+        coefs[k - 1] = vec![0];
+        let rest = want::<P>(*which, *x, &coefs);
+        if rest == nar::<P>() {
+            return Ok(());
+        }
+        let m = gen::mask(P::N);
+        let c_last = ((rest.wrapping_neg() as i64).wrapping_add(*d) as u64) & m;
+        if c_last == nar::<P>() {
+            return Ok(());
+        }
+        let mut flat: Vec<u64> = cs[..k - 1].to_vec();
+        flat.push(c_last);
+        l.label("cancellation_directed");
+        one::<P>(*which, 1, *x, &flat, l)
+    });
+}
+
 pub fn run(rep: &mut Report) {
     let tier = rep.cfg.tier;
     rep.rule = "x and coefficient arrays (highest degree first; coefficient type P or the unevaluated sums [P;2], [P;3]); all of poly1..poly18, poly3a, poly4a per case. Oracle: x^2 = round(x*x), x^3 = round(x^2*x), x^4 = round(x^2*x^2) with the reference rounding; a stage is the exact dyadic sum of coefficient*power rounded once; poly1..4 are one stage, poly5..18/3a/4a chain stages as documented (5=[2,3], 6=[3,3], 7=[3,4], 8=[4,4], n>=9 = poly(n-4) then a 4-block, 3a=[1,2], 4a=[2,2], each later stage taking the previous result as leading coefficient); NaR anywhere gives NaR. P8 additionally: every x with seeded coefficient arrays. Non-trivial = x not in {0, +-1, NaR}, >= 2 non-zero coefficients, real result; distinct (poly, x, coefficients)."
@@ -226,6 +249,9 @@ pub fn run(rep: &mut Report) {
     section::<P8E0>(rep, g);
     section::<P16E1>(rep, g);
     section::<P32E2>(rep, g);
+    cancel_section::<P8E0>(rep, g / 2);
+    cancel_section::<P16E1>(rep, g);
+    cancel_section::<P32E2>(rep, g * 2);
     // P8: all x with coefficient arrays derived from the seed
     let seed = rep.cfg.seed;
     let sets = tier.pick(64, 2048);
